@@ -261,6 +261,9 @@ def run_check(cid: str, tier: str, seed: int) -> int:
     with open(os.path.join(ev_dir, f"{cid}.json"), "w") as fh:
         json.dump(evidence, fh, indent=1, default=repr)
 
+    if m["failures"]:
+        kinds = Counter((f.get("kind"), f.get("known")) for f in m["failures"])
+        print(f"[{cid}] failures by (kind, known-finding): {dict(kinds)}")
     status = "VIOLATED" if violations else ("INCONCLUSIVE" if inconclusive else "held")
     print(f"[{cid}] {tier} seed={seed}: {status}; evaluations={m['evaluations']} distinct_nontrivial={len(m['hashes'])} "
           f"violations={len(seen_replay)} known={sum(known_seen.values())} shards={len(specs)} "
